@@ -178,7 +178,7 @@ def r2(R, m):
 def r3(R, m):
     R.rule("C03.R3", "makerings: first reflection seeds the first ring, the loop visits all the others, every path appends the "
                      "reflection to exactly one ring and a new ring is keyed by its own d-star")
-    fn = m.nfunc("unitcell.makerings")     # normal form: index / while loops read as 'for <item> in <sequence>'
+    fn = m.ifunc("unitcell.makerings", keep=("gethkls", "gethkls_xfab"))   # normal form (index / while loops read as 'for <item> in <sequence>'), private helpers in place
     loops = [n for n in ast.walk(fn) if isinstance(n, ast.For)]
     R.shape(len(loops) == 1, "C03.R3", REL, "unitcell.makerings", "the loop over the sorted reflections")
     lp = loops[0]
@@ -189,6 +189,13 @@ def r3(R, m):
     cfg0 = pyfacts.PyCFG(fn)
     seed = [a for a in ast.walk(fn) if isinstance(a, ast.Assign) and src(a.value).replace(" ", "") == "self.peaks[0]" and cfg0.node_of(a) is not None
             and cfg0.node_of(lp) is not None and cfg0.dominates(cfg0.node_of(a), cfg0.node_of(lp))]
+    if not seed:
+        # the first reflection handed straight on (to a helper read in place): statements before the loop that put self.peaks[0][0] /
+        # self.peaks[0][1] into the ring tables
+        firsts = [st_ for st_ in ast.walk(fn) if isinstance(st_, (ast.Expr, ast.Assign)) and "self.peaks[0]" in src(st_).replace(" ", "") and "ring" in src(st_)
+                  and cfg0.node_of(st_) is not None and cfg0.dominates(cfg0.node_of(st_), cfg0.node_of(lp))]
+        if len(firsts) >= 2:
+            seed = firsts[:1]
     R.check(len(seed) == 1, "C03.R3", REL, fn.lineno, "unitcell.makerings", "<first> = self.peaks[0] seeds the first ring",
             "the first reflection is not placed in a ring")
     # the path analysis below understands the form  for peak in ...: self.ringds / self.ringhkls  with peak[0], peak[1]
